@@ -136,8 +136,9 @@ def run_shutdown(wk, sig, phases, appfin="within", graceful=3, bind="tcp", slack
         clients = [Client(s, ph, appfin, go, graceful) for ph in phases]
         for c in clients:
             c.start()
-            if wk == "sync":
-                time.sleep(0.15)       # one connection per sync worker
+            # one connection per sync worker; for the other classes the clients arrive in the order of the list (with a
+            # bounded pool the last one is the one that finds no free slot)
+            time.sleep(0.15 if wk == "sync" else 0.08)
         for c in clients:
             c.ready.wait(10)
         allpids = set(wpids)
